@@ -284,7 +284,7 @@ def main(tier, seed, nproc, t0):
         total.merge(run_backend("f64", seed, 1))
     else:
         for b in ("f64", "dec"):
-            total.merge(run_backend(b, seed, 5))
+            total.merge(run_backend(b, seed, 12))
     return fw.finish(PID, tier, seed, total, t0, RULE, min_evals=50,
                      assumptions=["the verdicts are rustc's (stable 1.95) on the real proc macro; only level, primary span and artifact presence are judged"])
 
